@@ -216,6 +216,20 @@ def gen_access_scenario(rng, i):
     return {"kind": "access", "old": old, "roles": roles, "newkey": newkey, "flags": flags, "source": src}
 
 
+def gen_inother_scenario(rng, i):
+    """`x in snapshot(<tuple / set / dict display>)`: the previous value is no list display; the categories still mean what they mean for lists"""
+    members = rng.sample(range(1, 9), rng.randint(1, 4))
+    tested = [m for m in members if rng.random() < 0.6] + ([rng.choice([11, 12])] if rng.random() < 0.5 else [])
+    if not tested:
+        tested = [members[0]]
+    shape = rng.choice(["tuple", "set", "dict"])
+    old_src = {"tuple": "(" + ", ".join(map(str, members)) + ("," if len(members) == 1 else "") + ")", "set": "{" + ", ".join(map(str, members)) + "}",
+               "dict": "{" + ", ".join(f"{m}: 0" for m in members) + "}"}[shape]
+    flags = tuple(rng.choice(__import__("vh.proggen", fromlist=["x"]).flag_subsets()))
+    src = SC_HDR + f"R = []\n\n\ndef test_a():\n    for x in {tested!r}:\n        R.append(x in snapshot({old_src}))\n"
+    return {"kind": "inother", "members": members, "tested": tested, "shape": shape, "flags": flags, "source": src}
+
+
 def run_scenario(sc):
     from .. import driver
     r = driver.run_inproc({"test_a.py": sc["source"]}, sc["flags"], block_black=True)
@@ -276,6 +290,26 @@ def judge_scenario(sc, o):
             return f"categories {sorted(rep)} reported, documented meaning gives {want_cat} (set {x} {sc['sym']} bound {old}: comparison {'holds' if holds else 'fails'})"
         if (None if val is None else set(val)) != want:
             return f"bound after the run is {val}, documented meaning gives {want} (set {x} {sc['sym']} previous bound {old}, approved {sorted(F)})"
+        return None
+    if sc["kind"] == "inother":
+        members, tested = sc["members"], sc["tested"]
+        missing = [t for t in tested if t not in members]
+        unused = [m for m in members if m not in tested]
+        want_cat = "fix" if missing else ("trim" if unused else None)
+        if want_cat and want_cat not in rep:
+            return f"{want_cat} is pending (members {members}, tested {tested}) but reported categories are {sorted(rep)}"
+        if (rep - {"update"}) - ({want_cat} if want_cat else set()):
+            return f"categories {sorted(rep)} reported, documented meaning gives {want_cat} (members {members}, tested {tested})"
+        got = None if val is None else sorted(val)
+        if want_cat == "fix" and "fix" in F:
+            want = sorted(set(tested) | (set() if "trim" in F else set(members)))       # fix adds what is missing; only trim removes what was not tested
+        elif want_cat == "trim" and "trim" in F:
+            want = sorted(set(tested))
+        else:
+            want = sorted(members)
+        if got != want:
+            return (f"`in` snapshot written as a {sc['shape']} display: after the run it holds {got}, documented meaning gives {want} "
+                    f"(members {members}, tested {tested}, approved {sorted(F)})")
         return None
     # access
     old, roles = sc["old"], sc["roles"]
@@ -368,7 +402,7 @@ def run(ctx: Ctx):
     # B
     from ..core import pmap
     ms = 200 if not ctx.thorough else 2000
-    scs = [(gen_bound_scenario, gen_access_scenario, gen_bound_scenario, gen_poset_scenario)[i % 4](ctx.rng, i // 4) for i in range(ms)]
+    scs = [(gen_bound_scenario, gen_access_scenario, gen_bound_scenario, gen_poset_scenario, gen_inother_scenario)[i % 5](ctx.rng, i // 5) for i in range(ms)]
     for sc, o in zip(scs, pmap(run_scenario, scs, chunksize=8)):
         ctx.count(("scenario", sc["source"], sc["flags"]), True)
         ctx.dist("B.scenario=" + sc["kind"])
